@@ -131,6 +131,18 @@ CHECKS['C11'] = dict(
     technique="Coq proof over a parametric block-routing model + generated header table + byte-exact correspondence",
     design="6.C11")
 
+CHECKS['C09'] = dict(
+    text="Coq theorems over tables tabulated by executing the transformer callbacks of /repo on every alternative of the grammar's terminals: "
+         "every documented synonym pair maps to the same operator (C09_synonym_terminals), the alternatives every/any, a/an, hold/holds, "
+         "goes/ranges sit in filtered terminals or in children no callback reads (C09_filtered_alternatives), concept names are case-folded "
+         "and a third-person -s on a verb is stripped (C09_names, for all names). Oracle: single and multiple paraphrase substitutions "
+         "(synonyms, articles, number, verb -s, negation auxiliaries, commas, letter case, whitespace, comments) applied to corpus and "
+         "wide-generator specifications; the compiled programs must be byte-identical. Lark's token filtering, %ignore, case-insensitive "
+         "literals and ambiguity resolution are exercised, not proved: partial.",
+    note="Trusted: Coq kernel; tabulation-by-execution translator and grammar reader; Lark. A paraphrase the compiler rejects is counted, not scored.",
+    technique="Coq proof over tables regenerated from the source + paraphrase differential oracle",
+    design="6.C09")
+
 NOT_YET = {}
 
 
